@@ -31,6 +31,7 @@ from ..engine import LVec
 from ..verdict import Result
 
 LEVEL = "exploration"
+AWKWARD_REGISTRATION_MIX = True
 RULE = ("every catalogued operation x 12 Awkward layouts x 3 construction routes (rotating in quick, all in thorough) x "
         "sampled coordinate systems x both flavors, with numeric/string/nested extra fields; a cell is (operation, layout, "
         "route, oracle) and is non-trivial when the operation returned and the oracle compared result and operand")
